@@ -197,7 +197,7 @@ def tlc_gen(pid, module, cfg_body, constants, outfile, workers=NCPU, timeout=180
 
 # ---------------------------------------------------------------------------
 # trace validation
-_REJ = re.compile(r'TRACE_REJECTED_AT", (\d+)')
+_REJ = re.compile(r'TRACE_REJECTED_AT",\s*(\d+)')
 _INVV = re.compile(r"Error: Invariant (\w+) is violated")
 _PROPV = re.compile(r"Error: Action property (\w+) is violated")
 _L = re.compile(r"^/\\ l = (\d+)", re.M)
@@ -249,15 +249,17 @@ def _diagnose(out, nlines):
     """Return None if accepted, else (line_index_1based_of_first_unmatched_event, reason)."""
     if "Model checking completed. No error has been found." in out and "TRACE_REJECTED_AT" not in out:
         return None
+    m = _INVV.search(out) or _PROPV.search(out)
+    if m:
+        # the violating state is the last one printed before the post-condition output;
+        # it was reached by consuming event l-1
+        head = out.split("TRACE_REJECTED_AT")[0]
+        ls = _L.findall(head)
+        at = int(ls[-1]) - 1 if ls else 1
+        return at, "%s violated after this event" % m.group(1)
     m = _REJ.search(out)
     if m:
         return int(m.group(1)), "no spec step matches this event"
-    m = _INVV.search(out) or _PROPV.search(out)
-    if m:
-        ls = _L.findall(out)
-        # the violating state is the last one printed; it was reached by consuming event l-1
-        at = int(ls[-1]) - 1 if ls else 1
-        return at, "%s violated after this event" % m.group(1)
     return -1, "TLC error: " + out[-1500:]
 
 
